@@ -18,7 +18,7 @@ LEVEL = "model_checking"
 RULE = ("shared property p declared by two allOf members: full product of ordered kind pairs (17 x 17) x member form (ref+inline; "
         "thorough: inline+inline, ref+ref) x requiredness pattern (4) x default pattern (none / first member / second member); each "
         "case generates BOTH member orders; plus inheritance chains and diamonds under all declaration orders and members with "
-        "disjoint property sets, a colliding sibling (snake-case equal to the shared name), enums whose member names are a subset while the values are not, self-referential root parents inherited through chains, single-reference allOf that adds properties / required / additionalProperties, names that are suffixes / prefixes of one another, schemas titled like the schema they compose; a second composition of the referenced member declared before / after (it keeps the member's own kind, requiredness and default); oracle: order-swap differential on the abstract attribute type, RM-narrow partial order, union of "
+        "disjoint property sets, a colliding sibling (snake-case equal to the shared name), enums whose member names are a subset while the values are not, self-referential root parents inherited through chains, single-reference allOf that adds properties / required / additionalProperties, names that are suffixes / prefixes of one another, schemas titled like the schema they compose, a child composed from an alias (one-member allOf / oneOf) of a composed parent or of another alias under all 24 declaration orders; a second composition of the referenced member declared before / after (it keeps the member's own kind, requiredness and default); oracle: order-swap differential on the abstract attribute type, RM-narrow partial order, union of "
         "properties and of requiredness, round trip of instances valid for all members; non-trivial = both orders generated or diagnosed; referenced members without properties, a sibling composition of the same parent that fails (type conflict, non-object member, dangling reference), a default carried by an untyped member")
 FLOOR = 0.5
 ASSUMPTIONS = ["RM-narrow: integer < number, date/date-time < string, enum < its base type, sub-enum < enum, everything < any, array(k) ordered like k"]
@@ -200,11 +200,12 @@ def cases(tier):
         yield {"labels": [f"k1={kname(k1)}", f"k2={kname(k2)}", "form=ref+inline", "req=00", "name=itemCount", "sibling=item_count"],
                "payload": {"mode": "pair", "k1": k1, "k2": k2, "form": "ref+inline", "req": [False, False], "default": "none", "pname": "itemCount",
                            "collide": "item_count"}}
-    for shape in ("chain3", "diamond", "disjoint3", "selfref-chain", "single-ref+own-properties", "single-ref+required-only", "single-ref+closed", "single-ref+member-requires-inherited",
+    for shape in ("chain3", "diamond", "disjoint3", "selfref-chain", "alias-of-composed-parent", "alias-of-alias", "single-ref+own-properties", "single-ref+required-only", "single-ref+closed", "single-ref+member-requires-inherited",
                   "empty-parent:type-only", "empty-parent:addl-only", "empty-parent:empty-properties", "empty-parent:middle-of-chain",
                   "failing-sibling:type-conflict", "failing-sibling:non-object-member", "failing-sibling:dangling"):
         names = {"chain3": ["Base", "Mid", "M"], "diamond": ["Base", "Left", "Right", "M"], "disjoint3": ["P1", "P2", "P3", "M"],
-                 "selfref-chain": ["Base", "Mid", "M"]}.get(shape, ["Base", "Bad", "M", "User"] if shape.startswith("failing-sibling") else ["Base", "M", "User"])
+                 "selfref-chain": ["Base", "Mid", "M"], "alias-of-composed-parent": ["Base", "Mid", "Alias", "M"],
+                 "alias-of-alias": ["Base", "Alias", "Alias2", "M"]}.get(shape, ["Base", "Bad", "M", "User"] if shape.startswith("failing-sibling") else ["Base", "M", "User"])
         for order in itertools.permutations(names):
             if tier == "quick" and shape == "diamond" and order[0] not in ("M", "Base"):
                 continue
@@ -418,6 +419,21 @@ def _shape(p):
                  "M": {"allOf": [ref("Mid"), {"type": "object", "properties": {"label": {"type": "string", "enum": ["x", "y"]}, "own": {"type": "boolean"}}}]}}
         expect = {"id": ("int", True), "amount": ("int", True), "label": (("enum", ("x", "y")), False), "mid": ("date", False), "own": ("bool", False)}
         inst = {"id": 1, "amount": 2, "label": "x", "mid": "2020-01-02", "own": True}
+    elif shape == "alias-of-composed-parent":
+        # M is composed from an ALIAS (one-member allOf, adds nothing) of a parent that is itself a composition: whatever the declaration
+        # order, the alias is resolved when its target is
+        comps = {"Base": {"type": "object", "required": ["id"], "properties": {"id": {"type": "integer"}}},
+                 "Mid": {"allOf": [ref("Base"), {"type": "object", "properties": {"mid": {"type": "string"}}}]},
+                 "Alias": {"allOf": [ref("Mid")]},
+                 "M": {"allOf": [ref("Alias"), {"type": "object", "required": ["own"], "properties": {"own": {"type": "boolean"}}}]}}
+        expect = {"id": ("int", True), "mid": ("str", False), "own": ("bool", True)}
+        inst = {"id": 1, "mid": "m", "own": True}
+    elif shape == "alias-of-alias":
+        comps = {"Base": {"type": "object", "required": ["id"], "properties": {"id": {"type": "integer"}, "label": {"type": "string"}}},
+                 "Alias": {"allOf": [ref("Base")]}, "Alias2": {"oneOf": [ref("Alias")]},
+                 "M": {"allOf": [ref("Alias2"), {"type": "object", "properties": {"own": {"type": "boolean"}}}]}}
+        expect = {"id": ("int", True), "label": ("str", False), "own": ("bool", False)}
+        inst = {"id": 1, "label": "l", "own": False}
     elif shape == "diamond":
         comps = {"Base": {"type": "object", "required": ["id"], "properties": {"id": {"type": "integer"}, "v": {"type": "number"}}},
                  "Left": {"allOf": [ref("Base"), {"type": "object", "properties": {"l": {"type": "string"}, "v": {"type": "integer"}}}]},
